@@ -14,7 +14,7 @@ META = dict(
     property="C54",
     level="exploration",
     technique="generated FTP command sessions against the real FTP protocol + FTPShell/FTPAnonymousShell on a scratch root with prefix-sharing siblings, data connections through the real DTP over an in-memory transport, every filesystem call audited with sys.addaudithook; complete small scope of (prefix, command, path)",
-    level_text="Each case is a whole control-connection session (login as a user -> FTPShell, or anonymous -> FTPAnonymousShell; then CWD/CDUP/PWD/MKD/RMD/DELE/RNFR/RNTO/SIZE/MDTM/LIST/NLST/RETR/STOR/APPE/raw lines with hostile path arguments). While the session runs, every open/listdir/scandir/mkdir/rmdir/remove/rename/link/symlink/truncate/chmod event is recorded and each path must resolve inside realpath(root); afterwards everything in the scratch tree outside root (T/secret, T/root.secret, T/rootsib/...) must be byte-identical, and no control or data output may contain the content of an outside file. Quick tier enumerates every (prefix in {none, CWD sub, CWD sub/deep}) x (command) x (path of <= 2 segments over 5 atoms, relative and absolute, plus classic traversal spellings), and for both shells every command x every one-character disguise of '..' (NUL, 0x01, TAB, 0x1f, DEL, space inserted at each position) x climb targets (prefix-sharing sibling, its files, the parent's files), from / and from /sub; longer sessions are sampled.",
+    level_text="Each case is a whole control-connection session (login as a user -> FTPShell, or anonymous -> FTPAnonymousShell; then CWD/CDUP/PWD/MKD/RMD/DELE/RNFR/RNTO/SIZE/MDTM/LIST/NLST/RETR/STOR/APPE/raw lines with hostile path arguments). While the session runs, every open/listdir/scandir/mkdir/rmdir/remove/rename/link/symlink/truncate/chmod event is recorded and each path must resolve inside realpath(root); afterwards everything in the scratch tree outside root (T/secret, T/root.secret, T/rootsib/...) must be byte-identical, and no control or data output may contain the content of an outside file. Quick tier enumerates every (prefix in {none, CWD sub, CWD sub/deep}) x (command) x (path of <= 2 segments over 5 atoms, relative and absolute, plus classic traversal spellings), and for both shells every command x every one-character disguise of '..' (NUL, 0x01, TAB, 0x1f, DEL, space inserted at each position) x climb targets (prefix-sharing sibling, its files, the parent's files), from / and from /sub, and renames/RMD/DELE/MKD/STOR whose source or destination is the root directory itself (7 spellings x 9 peers); longer sessions are sampled.",
     level_note="Only Python-level audit events are seen (stat-type probes and libc calls such as getpwuid are not); DESIGN deliberately leaves stat probes unasserted. The data connection is the real ftp.DTP over an in-memory transport installed by the harness before each data command (PASV/PORT socket set-up is not exercised). reactor.callLater is replaced by a task.Clock for the session. Symbolic links are not created. 'internal server error' replies are counted, not asserted.",
     design_ref="§5 C54",
     rule="case = (shell kind, [(command, path argument)...]); path arguments are concatenations of atoms (.., ., empty, names inside root, sibling/secret names, NUL, backslash, globs, latin-1, absolute scratch paths, and '.'/'..' with control characters, DEL, blanks or NUL inserted before, inside or after them) joined with '/'. non-trivial = authenticated session with at least one filesystem command whose argument contains '..', is absolute, or names a sibling/secret/NUL/backslash; distinct by the whole session.",
@@ -376,7 +376,13 @@ def run_case(ctx, case):
                 ctx.count("class: disguised '..' using NUL")
             if any("\x00" not in seg for seg, _c in dis):
                 ctx.count("class: disguised '..' using another control/blank character")
-    if authed and nh:
+    names_root = [c for c, a in case["ops"] if a is not None and c.upper() in ("RNFR", "RNTO", "RMD", "DELE", "MKD", "STOR")
+                  and not [x for x in a.split("/") if x not in ("", ".")]]
+    if names_root:
+        ctx.count("class: destructive command aimed at the root directory itself")
+        if any(c.upper() in ("RNFR", "RNTO") for c in names_root):
+            ctx.count("class: rename with the root directory itself as source or destination")
+    if authed and (nh or names_root):
         ctx.nontrivial((case["shell"], tuple(tuple(o) for o in case["ops"])))
         ctx.count("nontrivial")
         if len(ctx.samples) < 5 and len(case["ops"]) >= 3 and nh >= 2:
@@ -399,7 +405,7 @@ PREFIXES = [[], [["CWD", "sub"]], [["CWD", "sub/deep"]]]
 # characters that a normalizer may strip or ignore; "\n" is left out (CR LF would end the command line)
 IGNORABLE = ["\x00", "\x01", "\x07", "\x08", "\t", "\x0b", "\x0c", "\r", "\x1b", "\x1f", "\x7f", " ", "\x85", "\xa0", "\xad"]
 ENUM_IGNORABLE = ["\x00", "\x01", "\t", "\x1f", "\x7f", " "]
-CLIMB_TARGETS = ["rootsib", "rootsib/secret", "rootsib/new", "secret", "new"]
+CLIMB_TARGETS = ["rootsib", "rootsib/secret", "rootsib/new", "secret"]
 READ_COMMANDS = ["CWD", "SIZE", "MDTM", "LIST", "NLST", "RETR"]
 
 
@@ -444,16 +450,35 @@ def _one(cmd, path, prefix):
 
 def _enum_disguised(shell):
     """every command x every one-character disguise of '..' x every climb target, from / and from /sub"""
-    for d in _disguises("..", ENUM_IGNORABLE):
+    for d in _disguises("..", ENUM_IGNORABLE if shell == "user" else ENUM_IGNORABLE[:2] + ENUM_IGNORABLE[4:5]):
         for target in CLIMB_TARGETS:
             for cmd in (COMMANDS if shell == "user" else READ_COMMANDS):
                 yield dict(shell=shell, ops=_one(cmd, d + "/" + target, []))
                 yield dict(shell=shell, ops=_one(cmd, "../" + d + "/" + target, [["CWD", "sub"]]))
 
 
+ROOT_ALIASES = ["/", ".", "", "/.", "//", "sub/..", "/sub/deep/../.."]      # spellings of the root directory itself
+RENAME_PEERS = ["new", "/new", "rootsib", "root2", "root.secret", "sub/new", "a.txt", "empty", "rootsib/x"]
+
+
+def _enum_root_itself(shell):
+    """the root directory itself as the source or the destination of a rename (no '..' needed to name it),
+    and as the object of the other destructive commands, from / and from /sub"""
+    for prefix in ([], [["CWD", "sub"]]):
+        for r in ROOT_ALIASES:
+            if prefix and not r.startswith("/"):
+                r = "../" + r if r not in (".", "") else ".."
+            for peer in RENAME_PEERS:
+                yield dict(shell=shell, ops=prefix + [["RNFR", r], ["RNTO", peer]])
+                yield dict(shell=shell, ops=prefix + [["RNFR", peer], ["RNTO", r]])
+            for cmd in ("RMD", "DELE", "MKD", "STOR", "RETR", "LIST"):
+                yield dict(shell=shell, ops=prefix + [[cmd, r]])
+
+
 def _enum_dis_shard(ctx, shell):
     with _tree():
         enumerate_run(ctx, _enum_disguised(shell), run_case, stop_after_violation=False)
+        enumerate_run(ctx, _enum_root_itself(shell), run_case, stop_after_violation=False)
 
 
 def _enum_shard(ctx, arg):
@@ -483,6 +508,8 @@ def _path(draw):
         if draw(st.integers(0, 1)):
             segs = draw(st.sampled_from(CLIMB_TARGETS + ["root.secret", "rootsib/d/y", "root/a.txt"])).split("/")
         segs = climb + segs
+    if draw(st.integers(0, 11)) == 0:
+        return draw(st.sampled_from(ROOT_ALIASES))     # the root directory itself
     lead = draw(st.sampled_from(["", "", "", "/", "/", "//"]))
     trail = draw(st.sampled_from(["", "", "", "/"]))
     return lead + "/".join(segs) + trail
@@ -530,6 +557,7 @@ def run(ctx):
             enumerate_run(ctx, _enum_cases("anon", CLASSICS), run_case, stop_after_violation=False)
             enumerate_run(ctx, _enum_disguised("user"), run_case, stop_after_violation=False)
             enumerate_run(ctx, _enum_disguised("anon"), run_case, stop_after_violation=False)
+            enumerate_run(ctx, _enum_root_itself("user"), run_case, stop_after_violation=False)
     if ctx.has_violation():
         return
     if ctx.thorough:
